@@ -325,8 +325,16 @@ def _run(plan: dict, sim: sched.Sim, ch: sched.Chooser, dep: deploy.Deployment) 
     if lin["inconclusive"]:
         return common.result(sim, ch, "inconclusive", None, "linearizability search budget")
     if not lin["ok"]:
+        # Is it only the *reads* of the concurrent phase that cannot be placed?  Then the
+        # writes and the final state are linearizable and some read was not atomic.
+        kind_of = "nonlinearizable"
+        wonly = [h for h in history if h["task"] == "observer" or not h["op"]["op"].startswith("get_")]
+        if len(wonly) < len(history):
+            lin2 = linearize.check(wonly, m, env, max_nodes=60000)
+            if lin2["ok"] and not lin2["inconclusive"]:
+                kind_of = "torn-read"
         hist = ["%s[%s..%s] %s -> %s" % (h["task"], h["inv"], h["ret"], _short(h["op"]), _res_short(h["res"])) for h in history if h["task"] != "observer"]
-        return common.result(sim, ch, "violation", prefix + "nonlinearizable|" + lin["why"][:160], "history:\n  " + "\n  ".join(hist) + "\ndeepest failure: " + lin["why"])
+        return common.result(sim, ch, "violation", prefix + kind_of + "|" + lin["why"][:160], "history:\n  " + "\n  ".join(hist) + "\ndeepest failure: " + lin["why"])
     return common.result(sim, ch, "ok", extra_counters={"lin_nodes": lin["nodes"], "history_ops": len(history)})
 
 
